@@ -24,7 +24,7 @@
    A cell goes out as (grid_x, colspan, rowspan). Sets of columns are lists. *)
 From Coq Require Import ZArith List Bool Lia.
 Import ListNotations.
-Open Scope Z_scope.
+Local Open Scope Z_scope.
 
 Definition cellin := (Z * Z)%type.
 Definition cellout := (Z * Z * Z)%type.
